@@ -29,29 +29,31 @@ pub struct Prop {
     pub id: &'static str,
     pub run: fn(&mut Run) -> PResult,
     pub check_case: fn(&str, &Value) -> Result<(), String>,
+    /// number of single-threaded cold-start children (checked profile); more where a child is cheap
+    pub cold_singles: usize,
 }
 
 pub const PROPS: &[Prop] = &[
-    Prop { id: "C01", run: c01::run, check_case: c01::check_case },
-    Prop { id: "C02", run: multi::run_c02, check_case: multi::check_case_c02 },
-    Prop { id: "C03", run: multi::run_c03, check_case: multi::check_case_c03 },
-    Prop { id: "C04", run: c04::run, check_case: c04::check_case },
-    Prop { id: "C05", run: c05::run, check_case: c05::check_case },
-    Prop { id: "C06", run: c06::run, check_case: c06::check_case },
-    Prop { id: "C07", run: c07::run, check_case: c07::check_case },
-    Prop { id: "C08", run: c08::run, check_case: c08::check_case },
-    Prop { id: "C09", run: multi::run_c09, check_case: multi::check_case_c09 },
-    Prop { id: "C10", run: c10::run, check_case: c10::check_case },
-    Prop { id: "C11", run: c11::run, check_case: c11::check_case },
-    Prop { id: "C12", run: c12::run, check_case: c12::check_case },
-    Prop { id: "C13", run: c13::run, check_case: c13::check_case },
-    Prop { id: "C14", run: c14::run, check_case: c14::check_case },
-    Prop { id: "C15", run: c15::run, check_case: c15::check_case },
-    Prop { id: "C16", run: c15::run_c16, check_case: c15::check_case_c16 },
-    Prop { id: "C17", run: c17::run, check_case: c17::check_case },
-    Prop { id: "C18", run: c18::run, check_case: c18::check_case },
-    Prop { id: "C19", run: c19::run, check_case: c19::check_case },
-    Prop { id: "C20", run: c20::run, check_case: c20::check_case },
+    Prop { id: "C01", run: c01::run, check_case: c01::check_case, cold_singles: 28 },
+    Prop { id: "C02", run: multi::run_c02, check_case: multi::check_case_c02, cold_singles: 28 },
+    Prop { id: "C03", run: multi::run_c03, check_case: multi::check_case_c03, cold_singles: 28 },
+    Prop { id: "C04", run: c04::run, check_case: c04::check_case, cold_singles: 28 },
+    Prop { id: "C05", run: c05::run, check_case: c05::check_case, cold_singles: 28 },
+    Prop { id: "C06", run: c06::run, check_case: c06::check_case, cold_singles: 72 },
+    Prop { id: "C07", run: c07::run, check_case: c07::check_case, cold_singles: 72 },
+    Prop { id: "C08", run: c08::run, check_case: c08::check_case, cold_singles: 28 },
+    Prop { id: "C09", run: multi::run_c09, check_case: multi::check_case_c09, cold_singles: 28 },
+    Prop { id: "C10", run: c10::run, check_case: c10::check_case, cold_singles: 72 },
+    Prop { id: "C11", run: c11::run, check_case: c11::check_case, cold_singles: 28 },
+    Prop { id: "C12", run: c12::run, check_case: c12::check_case, cold_singles: 28 },
+    Prop { id: "C13", run: c13::run, check_case: c13::check_case, cold_singles: 28 },
+    Prop { id: "C14", run: c14::run, check_case: c14::check_case, cold_singles: 72 },
+    Prop { id: "C15", run: c15::run, check_case: c15::check_case, cold_singles: 28 },
+    Prop { id: "C16", run: c15::run_c16, check_case: c15::check_case_c16, cold_singles: 72 },
+    Prop { id: "C17", run: c17::run, check_case: c17::check_case, cold_singles: 72 },
+    Prop { id: "C18", run: c18::run, check_case: c18::check_case, cold_singles: 72 },
+    Prop { id: "C19", run: c19::run, check_case: c19::check_case, cold_singles: 28 },
+    Prop { id: "C20", run: c20::run, check_case: c20::check_case, cold_singles: 72 },
 ];
 
 pub fn find(id: &str) -> Option<&'static Prop> {
